@@ -233,6 +233,25 @@ def check_scalar(prog, report, files=(IM, IP)):
 # --------------------------------------------------------------------------
 # quadtree structure
 # --------------------------------------------------------------------------
+def _appended_at_once(block, create, name, lst='self.vertices'):
+    """idx = len(lst) is the position the vertex will have only if nothing
+    is added to lst between its creation and `lst.append(name)`: the two
+    statements sit in the same block and no statement between them calls a
+    method of self or touches lst."""
+    if create not in block:
+        return False
+    k = block.index(create)
+    for st in block[k + 1:]:
+        if text(st).replace(' ', '') == '%s.append(%s)' % (lst, name):
+            return True
+        for n in ast.walk(st):
+            if isinstance(n, ast.Call) and text(n.func).startswith('self.'):
+                return False
+            if text(n) == lst and not isinstance(st, ast.Assert):
+                return False
+    return False
+
+
 def check_quad_children(prog, report):
     fi = prog.func(IM, 'InitialMesh.refine')
     fn = fi.node
@@ -273,7 +292,8 @@ def check_quad_children(prog, report):
                 pos[text(s.targets[0])] = ((pos[a][0] + pos[b][0]) // 2,
                                            (pos[a][1] + pos[b][1]) // 2)
             app = has_stmt(fn.body, 'self.vertices.append(%s)' %
-                           text(s.targets[0]))
+                           text(s.targets[0])) and _appended_at_once(
+                               fn.body, s, text(s.targets[0]))
             report.check(
                 okc and kw.get('idx') == 'len(self.vertices)' and app,
                 'R-quad-children', 'interior vertex', fi.where(s),
@@ -378,7 +398,8 @@ def check_quad_bisect(prog, report):
         okn = kw.get('x') == '(%s.x+%s.x)/2' % (a, b) and kw.get(
             'y') == '(%s.y+%s.y)/2' % (a, b) and kw.get(
                 'idx') == 'len(self.vertices)' and has_stmt(
-                    iff[0].orelse, 'self.vertices.append(new_vtx)')
+                    iff[0].orelse, 'self.vertices.append(new_vtx)') and \
+            _appended_at_once(iff[0].orelse, new[0], 'new_vtx')
     report.check(okn, 'R-vreuse', 'bisect_edge fresh vertex',
                  fi.where(iff[0]),
                  'a fresh midpoint gets idx = len(vertices) and is appended',
@@ -551,9 +572,23 @@ def check_bdr_search(prog, report):
     desc = has_stmt(body, 'children = self.refine(parent)') and has_stmt(
         body, 'assert parent') and has_stmt(
             fn.body, 'children = self.leaf_elements')
+    encl = None
+    for n in ast.walk(fn):
+        if isinstance(n, (ast.For, ast.While)) and any(
+                text(m).replace(' ', '') == 'children=self.refine(parent)'
+                for m in n.body):
+            encl = n
+    if encl is not None and isinstance(encl, ast.While) and not (
+            isinstance(encl.test, ast.Constant) and encl.test.value):
+        raise AnalysisError('%s: the descent loop has a condition the rule '
+                            'does not read' % fi.where(encl))
+    # a counted loop bounds the depth: a dyadic segment below that level
+    # is then never reached although the search would terminate
+    desc = desc and isinstance(encl, ast.While)
     report.check(desc, 'R-contain', 'descent', fi.where(),
                  'the search starts from all leaves and descends into the '
-                 'children of the containing cell until the edges coincide',
+                 'children of the containing cell until the edges coincide, '
+                 'with no bound on the number of descents',
                  construct='refine_msh_bdr: descent')
     # vertex_from_coords uniqueness
     fv = prog.func(IM, 'InitialMesh.vertex_from_coords')
